@@ -706,6 +706,11 @@ def g_where(b):
         ec = ["l", (cond.astype(int) * rng.choice([1, 2])).tolist()] if cond.ndim == 1 else enc_arr(cond.astype("int64"))
     else:
         ec = bool(cond.ravel()[0]) if cond.size == 1 and rng.random() < 0.5 else enc_arr(cond)
+    if rng.random() < 0.25 and isinstance(ec, list) and ec[:1] == ["a"]:
+        # the condition as a (constant) tensor, e.g. a stored boolean / integer mask
+        cn = b.leaf(tuple(ec[2]), dtype=ec[1], values=np.array(ec[3], dtype=ec[1]).reshape(ec[2]),
+                    constant=True if np.dtype(ec[1]).kind == "f" else None, layout="C")
+        ec = R(cn)
     args = [ec, R(x), y] if rng.random() < 0.5 else [ec, y, R(x)]
     return b.call("where", args, sp=rng.choice(["mg", "np"]))
 
